@@ -1481,14 +1481,14 @@ def _mk_builtins():
     @_builtin
     def _min(*a):
         xs = _iter(a[0]) if len(a) == 1 else list(a)
-        if not all(isinstance(x, int) for x in xs):
+        if not all(isinstance(x, (int, float)) for x in xs):
             raise Unsupported("min of abstract values")
         return min(xs)
 
     @_builtin
     def _max(*a):
         xs = _iter(a[0]) if len(a) == 1 else list(a)
-        if not all(isinstance(x, int) for x in xs):
+        if not all(isinstance(x, (int, float)) for x in xs):
             raise Unsupported("max of abstract values")
         return max(xs)
 
